@@ -233,3 +233,42 @@ Definition check_faulty (fuel : nat) (alg : algorithm) (c : wcfg) (calls0 : nat)
            (expected : list obs) (ncalls : nat) : bool :=
   let (os, st) := run_schedule fuel alg c calls0 rs in
   obs_list_eqb os expected && negb (pending_left st) && Nat.eqb (calls st) ncalls.
+
+(** multi-element requests (slices, list indices): the element indices in evaluation order *)
+Definition mrequest := (tbl * string * list index)%type.
+
+Inductive mobs := MVals (l : list obs) | MExn (e : exn) | MFuel.
+
+Definition mobs_eqb (a b : mobs) : bool :=
+  match a, b with
+  | MVals x, MVals y => obs_list_eqb x y
+  | MExn e, MExn f => exn_eqb e f
+  | _, _ => false
+  end.
+
+Fixpoint run_mschedule (fuel : nat) (alg : algorithm) (W : xworld m2) (st : state m2) (rs : list mrequest)
+  : list mobs * state m2 :=
+  match rs with
+  | [] => ([], st)
+  | (tb, name, ixs) :: rest =>
+      let '(r, st1) := run_multi m2_ops alg (compile alg) W fuel st tb name ixs in
+      let o := match r with
+               | Ok vs => MVals (map (fun v => obs_of (Ok v)) vs)
+               | Raise e => MExn e
+               | OutOfFuel => MFuel
+               end in
+      let '(os, st2) := run_mschedule fuel alg W st1 rest in
+      (o :: os, st2)
+  end.
+
+Fixpoint mobs_list_eqb (a b : list mobs) : bool :=
+  match a, b with
+  | [], [] => true
+  | x :: a', y :: b' => mobs_eqb x y && mobs_list_eqb a' b'
+  | _, _ => false
+  end.
+
+Definition check_mschedule (fuel : nat) (alg : algorithm) (c : wcfg) (calls0 : nat) (rs : list mrequest)
+           (expected : list mobs) : bool :=
+  let W := mk_xworld c in
+  mobs_list_eqb (fst (run_mschedule fuel alg W (init_state alg W calls0) rs)) expected.
